@@ -5,7 +5,7 @@ import ast
 from typing import Optional
 
 from ..prog import AnalysisError, FuncInfo, call_name, short, stmt_head, unparse, walk_no_nested
-from ..util import assignments_to, atomic_guards, guards_at
+from ..util import assignments_to, atomic_guards, const_eval, guards_at
 
 TR = "sigma.processing.transformations"
 TB = TR + ".base"
@@ -51,6 +51,8 @@ def run(ctx) -> None:
     r9_string_class_kept(ctx)
     r10_expansions_descended(ctx)
     r11_nested_pipeline_context(ctx)
+    r12_reescape_inverse(ctx)
+    r13_value_lists_rebound(ctx)
 
 
 def _item_param(f: FuncInfo) -> Optional[str]:
@@ -538,3 +540,103 @@ def r11_nested_pipeline_context(ctx) -> None:
     else:
         r.ok("C12.R11", f.qual, "nested pipeline gets the enclosing pipeline's vars and a start state equal to its state of this rule", f.loc)
     r.floor("C12.R11", 1)
+
+
+def _ref_parse(text: str) -> list:
+    """Reference Sigma string parser (specification): backslash escapes '*', '?' and itself, any other backslash is a
+    plain character, bare '*'/'?' are wildcards. Returns parts: str | ('W', c)."""
+    out, acc, i = [], "", 0
+    while i < len(text):
+        c = text[i]
+        if c == "\\" and i + 1 < len(text) and text[i + 1] in "*?\\":
+            acc += text[i + 1]
+            i += 2
+            continue
+        if c in "*?":
+            if acc:
+                out.append(acc)
+                acc = ""
+            out.append(("W", c))
+        else:
+            acc += c
+        i += 1
+    if acc:
+        out.append(acc)
+    return out
+
+
+def r12_reescape_inverse(ctx) -> None:
+    """replace_string (default mode) prints the value, substitutes, re-escapes the backslashes and parses the text again.
+    The re-escaping pattern is extracted and applied (the stdlib `re` is the only library) to printed sample values; parsed
+    with the reference parser the result must be the value again: every literal backslash run keeps its length, an escaped
+    wildcard stays literal, a wildcard stays a wildcard."""
+    import re as _re
+    r, prog = ctx.r, ctx.prog
+    r.rule("C12.R12", "the backslash re-escaping of replace_string is the inverse of the parser's unescaping: applied to the printed form of sample values (backslash runs of length 1–4, escaped and bare wildcards) and parsed by the reference parser, every value comes back unchanged")
+    f = prog.func(TR + ".values.ReplaceStringTransformation.apply_string_value")
+    subs = [c for c in walk_no_nested(f.node) if isinstance(c, ast.Call) and call_name(c) == "re.sub" and len(c.args) == 3]
+    if len(subs) != 1:
+        raise AnalysisError(f"{f.qual}: expected exactly one literal re.sub (the backslash re-escaping), found {len(subs)}")
+    try:
+        pat, rep = const_eval(prog, f.module, subs[0].args[0]), const_eval(prog, f.module, subs[0].args[1])
+    except ValueError:
+        raise AnalysisError(f"{f.qual}: re-escaping pattern is not constant")
+    loc = f"{f.module.relpath}:{subs[0].lineno}"
+    # values as parts; their printed (plain) form: wildcards bare, literal * and ? escaped, backslashes as they are
+    values = [["a\\b"], ["a\\\\b"], ["a\\\\\\b"], ["a\\\\\\\\b"], ["\\\\srv\\share\\x.exe"], ["50* off"], ["what?"], ["a", ("W", "*"), "b"], ["x\\", "y"],
+              ["C:\\dir\\", ("W", "*")][:1] + ["z"], ["tail\\\\\\"]]
+    bad = []
+    for parts in values:
+        merged = []
+        for p_ in parts:
+            if isinstance(p_, str) and merged and isinstance(merged[-1], str):
+                merged[-1] += p_
+            else:
+                merged.append(p_)
+        printed = "".join(p_[1] if isinstance(p_, tuple) else p_.replace("*", "\\*").replace("?", "\\?") for p_ in merged)
+        back = _ref_parse(_re.sub(pat, rep, printed))
+        if back != merged:
+            bad.append(f"{merged} is printed as {printed!r}, re-escaped to {_re.sub(pat, rep, printed)!r} and parsed as {back}")
+    if bad:
+        r.violation("C12.R12", f.qual, f"re.sub({pat!r}, {rep!r}, …)", f"{bad[0]} (+{len(bad) - 1} more value(s)): a replace_string whose regex matches rewrites the untouched rest of the value — runs of backslashes change their length", loc)
+    else:
+        r.ok("C12.R12", f.qual, f"re.sub({pat!r}, {rep!r}, …) restores {len(values)} sample values exactly", loc)
+    r.floor("C12.R12", 1)
+
+
+def r13_value_lists_rebound(ctx) -> None:
+    """One-to-many field mappings clone a detection item with dataclasses.replace(), which copies the *reference* to the value
+    list: the clones share one list object. A transformation restricted to one of the mapped fields must therefore give its
+    item a new list; changing the list in place rewrites the sibling fields' values as well."""
+    from .c06 import INPLACE_METHODS, _item_typed
+    r, prog = ctx.r, ctx.prog
+    r.rule("C12.R13", "transformations give a detection item a new value list (item.value = …) and never change the list in place (slice assignment, append/extend/clear, del, +=): items cloned by a one-to-many field mapping share their list object")
+    n = 0
+    for f in prog.functions_in("sigma.processing"):
+        for st in walk_no_nested(f.node):
+            hit = None
+            if isinstance(st, (ast.Assign, ast.AugAssign)):
+                for t in (st.targets if isinstance(st, ast.Assign) else [st.target]):
+                    if isinstance(t, ast.Attribute) and t.attr == "value" and _item_typed(ctx, f, t.value):
+                        n += 1
+                        if isinstance(st, ast.AugAssign):
+                            hit = st
+                        else:
+                            r.ok("C12.R13", f.qual, f"{stmt_head(st, 70)}: new list bound to the item", f"{f.module.relpath}:{st.lineno}")
+                    elif isinstance(t, ast.Subscript) and isinstance(t.value, ast.Attribute) and t.value.attr == "value" and _item_typed(ctx, f, t.value.value):
+                        n += 1
+                        hit = st
+            elif isinstance(st, ast.Delete):
+                for t in st.targets:
+                    if isinstance(t, ast.Subscript) and isinstance(t.value, ast.Attribute) and t.value.attr == "value" and _item_typed(ctx, f, t.value.value):
+                        n += 1
+                        hit = st
+            elif isinstance(st, ast.Expr) and isinstance(st.value, ast.Call) and isinstance(st.value.func, ast.Attribute) and st.value.func.attr in INPLACE_METHODS \
+                    and isinstance(st.value.func.value, ast.Attribute) and st.value.func.value.attr == "value" and _item_typed(ctx, f, st.value.func.value.value):
+                n += 1
+                hit = st
+            if hit is not None:
+                r.violation("C12.R13", f.qual, stmt_head(hit, 120),
+                            "the value list of the item is changed in place: after a one-to-many field mapping (User → [SubjectUserName, TargetUserName]) the mapped items share this list, so a value transformation restricted to SubjectUserName by a field name condition also rewrites the values of TargetUserName", f"{f.module.relpath}:{hit.lineno}")
+    r.analysed["C12.item_value_stores"] = n
+    r.floor("C12.R13", 3)
